@@ -22,12 +22,12 @@ CHECKS = {
          "32 (quick) / 800 (thorough) collections, ~200 / ~8000 creates; two fifths are single PanSN files with sync-token rounds every 1..8 contigs, thread counts from {1,2,3,4,8,16} with at least three distinct per case.",
          "Real-thread interleavings are sampled with perturbation, not owned: a race that needs a window the hook points never open can be missed. This is randomised schedule generation, not model checking.",
          "DESIGN.md §6 C04"),
- "C05": ("exploration", "generated (workers, capacity, sync placement, delays, perturbation) configurations of the real pipeline in a child process with an event-log based stuck-state proof, plus shuttle random/PCT schedule exploration of the real queue source under a skeleton of the protocol",
+ "C05": ("exploration", "generated (workers, capacity, sync placement, delays, perturbation) configurations of the real pipeline in a child process with an event-log based stuck-state proof and an OS-level one (no thread of the child did any work for 5 s), plus shuttle random/PCT schedule exploration of the real queue source under a skeleton of the protocol",
          "192 (quick) / 6000 (thorough) pipeline runs incl. capacities below one contig and explicit sync_and_flush; 1.75*10^5 (quick) / 3.5*10^6 (thorough) shuttle schedules of the 1-producer / 1..4-worker / 0..3-round skeleton.",
-         "Bounded liveness: a run either returns within the watchdog or the log must prove the stuck state; slow-but-live is inconclusive (exit 2). The exhaustive N<=3 exploration the quantifier mentions would be model checking, which this technique family does not do; shuttle's randomised schedulers are the in-family substitute.",
+         "Bounded liveness: a run either returns within the (progress-aware) watchdog or the log / the operating system must prove the stuck state; slow-but-live is inconclusive (exit 2). The exhaustive N<=3 exploration the quantifier mentions would be model checking, which this technique family does not do; shuttle's randomised schedulers are the in-family substitute.",
          "DESIGN.md §6 C05"),
  "C06": ("exploration", "sequential model-based testing + shuttle random/PCT schedule exploration of the real queue source with an under-lock event log replayed against the sequential model + real-thread runs with the same log-replay oracle",
-         "10^6 (quick) / 10^7 (thorough) sequential histories; 2.6*10^5 / 5*10^6 shuttle schedules (p<=3, c<=3, <=8 items, racing close); 960 / 2*10^4 real-thread runs with up to 16 threads.",
+         "10^6 (quick) / 10^7 (thorough) sequential histories; 2.6*10^5 / 5*10^6 shuttle schedules (p<=3, c<=3, <=8 items, racing close); 960 / 2*10^4 real-thread runs with up to 16 threads (joined with a stuck check, so threads left blocked after close are reported instead of hanging the check).",
          "Concurrent legs assume every item fits the capacity (the statement's precondition). Schedules are randomised (seeded), not exhaustive.",
          "DESIGN.md §6 C06"),
  "C07": ("exploration", "proptest archives x enumerated / junction-centred (start,end) ranges; oracle = slice of the full extraction",
@@ -35,7 +35,7 @@ CHECKS = {
          "Relative to full extraction (C01 relates that to the input).",
          "DESIGN.md §6 C07"),
  "C08": ("exploration", "model-based history testing: every operation sequence up to length 2 (and length 3 over a sub-alphabet) plus random longer ones per archive, oracle = same operation on a fresh handle; cloned handles on concurrent threads vs the same sequence alone",
-         "48 (quick) / 800 (thorough) archives x 1420 enumerated sequences + random sequences of length 4..12, a quarter of the archives with two metadata batches; half of the cases also run 2..8 cloned handles concurrently.",
+         "96 (quick) / 1600 (thorough) archives x 1462 enumerated sequences + structure-aware sequences (pairs of segment occurrences that share a stored entry / group / in-group id, raw pack vs LZ group id collisions, queried back to back) + random sequences of length 4..12 addressing any sample / contig, a quarter of the archives with two metadata batches; half of the cases also run 2..8 cloned handles concurrently.",
          "Errors are compared as 'is an error'. Thread interleavings of the cloned readers are whatever the OS schedules (the handles share no state by construction; a violation needs shared state, which any schedule exposes as a changed value).",
          "DESIGN.md §6 C08"),
  "C09": ("exploration", "exhaustive small-alphabet pairs + proptest edit-script-derived (reference, target) pairs; round-trip oracle plus independent LZ-text decoder; thorough tier adds a coverage-guided libFuzzer campaign (cargo-fuzz target fz_lz, same oracle inside the target)",
@@ -55,11 +55,11 @@ CHECKS = {
          "The zstd crate's decoder is the reference for ZSTD frames.",
          "DESIGN.md §6 C12"),
  "C13": ("exploration", "model-based (stateful) testing: generated operation histories vs a sequential container model and an independent footer parser; integer codec vs the format rule; thorough tier adds a coverage-guided libFuzzer campaign (cargo-fuzz target fz_arc, same oracle inside the target)",
-         "6*10^4 (quick) / 10^6 (thorough) histories of register / add / add-buffered / flush / set-raw-size with metadata at every byte-length boundary, reopen, sequential and random-access reads; 2*10^6+ integer magnitudes.",
+         "6*10^4 (quick) / 10^6 (thorough) histories of register / add / add-buffered / flush / set-raw-size with metadata at every byte-length boundary, reopen, sequential and random-access reads; bursts of 15..1500 buffered parts per flush; stages large-parts (parts of 4 MiB -9 .. 8 MiB, the writer's buffer size) and large-directory (8000..50000 parts or 3000..20000 streams: directories on both sides of 64 KiB); 2*10^6+ integer magnitudes.",
          "Buffered parts use registered stream ids; file offsets stay < 2^32 (magnitudes up to 2^64-1 are covered for the integer codec and metadata only).",
          "DESIGN.md §6 C13"),
  "C14": ("fault_enumeration", "enumeration of every strict prefix (crash point) of generated archives, opened in resource-limited child processes in two build profiles",
-         "32 (quick) / 192 (thorough) archives, every prefix length (stride 8 in the middle of archives > 200 kB), ~3*10^5 opens per quick run, each with the release and the overflow-checked build under RLIMIT_AS 4 GiB; the reachable crash states of one archive are enumerated completely, the archives themselves are sampled.",
+         "32 (quick) / 192 (thorough) archives, every prefix length (stride 8 in the middle of archives > 200 kB), ~3*10^5 opens per quick run, each with the release and the overflow-checked build under RLIMIT_AS 4 GiB; the reachable crash states of one archive are enumerated completely, the archives themselves are sampled. Stage crafted-containers (320 / 6000): containers written by ragc's own Archive writer whose payloads make in-range footer lengths frequent (0x00 / 0xFF runs, back-pointers, 0xFF count bytes, directory look-alikes), every prefix, both builds.",
          "The file is written front to back in one pass, so prefixes are exactly the crash states. Only a Decompressor handle (not a bare container handle) counts as acceptance.",
          "DESIGN.md §6 C14"),
  "C15": ("fault_enumeration", "fault injection by file-size limit at enumerated byte offsets of generated archives (real CLI and library path in child processes)",
@@ -71,15 +71,15 @@ CHECKS = {
          "Headers are non-empty, do not start with '>' or blanks; non-letter characters above '@' are not generated.",
          "DESIGN.md §6 C16"),
  "C17": ("exploration", "proptest over create flag combinations, request lists and prefixes through the real binary; metamorphic composition oracle (multi-sample output = concatenation of single-sample outputs) and exit-status oracle over 18 failure requests",
-         "240 (quick) / 4000 (thorough) cases, ~40 process runs each: stdout and -o for lists with repeats and for prefixes matching several samples; unsupported flags --batch/--adaptive/--concatenated; unknown names, missing / truncated / garbage archives.",
+         "240 (quick) / 4000 (thorough) cases, ~40 process runs each: stdout and -o (into a file that already holds other content) for lists with repeats and for prefixes matching several samples (half of the prefixes match every sample; name order is unrelated to archive order); unsupported flags --batch/--adaptive/--concatenated; unknown names, missing / truncated / garbage archives.",
          "Single-sample getset is the reference for composition.",
          "DESIGN.md §6 C17"),
  "C18": ("exploration", "differential testing of two build profiles (release vs release+overflow-checks) of both the CLI and the harness on generated archives and LZ pairs",
-         "160 (quick) / 4000 (thorough) collections biased to single files with many sync rounds, created and extracted by both builds (4 extraction combinations, byte identity where creation is deterministic); 10^5 (quick) / 3*10^6 (thorough) LZ pairs through estimate / cost vectors / encode in both builds; the prefix space runs in both builds under C14.",
+         "160 (quick) / 4000 (thorough) collections biased to single files with many sync rounds, a fifth with --queue-capacity below the largest contig, created and extracted by both builds (4 extraction combinations, byte identity where creation is deterministic) and every other read-side query (lengths, ranges around both ends, descriptor tables, statistics, reference segments) compared between the two reader builds; 10^5 (quick) / 3*10^6 (thorough) LZ pairs through estimate / cost vectors / encode in both builds; the prefix space runs in both builds under C14.",
          "Debug assertions are off in both builds, so overflow checking is the only difference.",
          "DESIGN.md §6 C18"),
  "C19": ("exploration", "metamorphic testing across 3..4 generated presentations of one collection through the real binary: equal listings and extractions, byte-identical archives within a mode",
-         "192 (quick) / 3000 (thorough) collections x (plain / gzip / multi-member gzip with boundaries anywhere, widths 1..100000 or unwrapped, CRLF, case, final newline) plus one-file vs per-sample-files for PanSN collections.",
+         "192 (quick) / 3000 (thorough) collections x (plain / gzip / multi-member gzip with boundaries anywhere, at record starts or at line starts, widths 1..100000 or unwrapped, CRLF, case, final newline) plus one-file vs per-sample-files for PanSN collections.",
          "A byte difference is only blamed on presentation when two runs of the same presentation agree.",
          "DESIGN.md §6 C19"),
  "C20": ("exploration", "exhaustive enumeration of small k / short strings + proptest random strings vs naive string model; thorough tier adds a coverage-guided libFuzzer campaign (cargo-fuzz target fz_kmer, same oracle inside the target)",
@@ -131,7 +131,7 @@ def main():
         "engines": [
             {"name": "vcheck", "path": "harness/vcheck", "serves_properties": sorted(CHECKS.keys()),
              "kind_free_text": "proptest TestRunner driven from a binary (fixed seed from VERIF_SEED, fixed case counts, shrinking), exhaustive sweeps of small sub-spaces, sharded over worker processes; oracles and reference models in harness/vlib"},
-            {"name": "vfuzz", "path": "harness/fuzz", "serves_properties": ["C03", "C09", "C10", "C12", "C13", "C20"],
+            {"name": "vfuzz", "path": "harness/fuzz", "serves_properties": ["C03", "C09", "C10", "C12", "C13", "C16", "C20"],
              "kind_free_text": "cargo-fuzz / libFuzzer targets (nightly, sanitizer coverage) that decode bytes into the structured case types of vlib and call the same oracle functions; started by the vcheck shards in the thorough tier with fixed -runs/-seed on fresh corpora (odd shards seeded, even shards empty); a stopping input is re-judged by the release oracle, minimised, and saved as a structured replay case"},
         ],
         "checks": checks,
